@@ -470,6 +470,9 @@ class Encoder:
         self.used_axioms.add(key)
         if name == "exp":
             self.side.append(fx > 0)
+            neg = f(-x)                      # exp(x) exp(-x) = 1
+            self.used_axioms.add((name, (-x).get_id()))
+            self.side.append(z3.And(neg > 0, fx * neg == 1))
         elif name == "cosh":
             self.side.append(fx >= 1)
             t = self._fn("tanh", 1)(x)
